@@ -9,12 +9,17 @@
 (* implements (which type it declares) next to the VALUE RULE (which tags  *)
 (* it produces).  The design is well-typed iff in every reachable package  *)
 (* every tag is admissible for the declared type, names are unique, ...    *)
+(* A resource also carries its PRIMARY KEY (a sequence of field names, <<>> *)
+(* when none is declared): Table Schema wants every key name to be a       *)
+(* declared field, so the steps that rename or remove fields have to take  *)
+(* the key along (PkFollows; FALSE = pinned: they leave it alone).         *)
 (* Programs: every sequence of <= Depth steps from the abstract menu whose *)
 (* preconditions (Enabled) hold.                                           *)
 (***************************************************************************)
 EXTENDS Naturals, Sequences, FiniteSets, TLC, SequencesExt, Json
 
 CONSTANTS Depth, AvgDeclares,    \* AvgDeclares: "source" (pinned: join's avg/median copy the source field's type) | "number"
+          PkFollows,               \* TRUE: rename_fields renames the primary key with the fields, delete_fields / select_fields / unpivot drop a key that lost a field (fix: commit); FALSE: pinned - the key is left alone
           ChainSees                \* TRUE: a computed field of one add_computed_field call sees the fields the same call computed before it (fix: commit); FALSE: pinned
 
 F(n, t, tags) == [name |-> n, type |-> t, tags |-> tags]
@@ -29,10 +34,10 @@ Admits(t) == CASE t = "integer" -> {"int", "null"}
                [] t = "any"     -> {"int", "num", "str", "bool", "arr", "obj", "date", "null"}
 
 \* n: an integer field that VARIES inside a key group of a (the median of an even number of integers is a fraction)
-R1 == [name |-> "res_1", fields |-> <<F("a", "integer", {"int"}), F("b", "string", {"str", "null"}), F("n", "integer", {"int"})>>]
-R2 == [name |-> "res_2", fields |-> <<F("a", "integer", {"int"}), F("c", "number", {"num"})>>]
+R1 == [name |-> "res_1", pk |-> <<>>, fields |-> <<F("a", "integer", {"int"}), F("b", "string", {"str", "null"}), F("n", "integer", {"int"})>>]
+R2 == [name |-> "res_2", pk |-> <<>>, fields |-> <<F("a", "integer", {"int"}), F("c", "number", {"num"})>>]
 \* a second resource whose field "a" has ANOTHER type than res_1's: what a step derives for one resource must not be reused for the next
-R3 == [name |-> "res_2", fields |-> <<F("a", "number", {"num"}), F("c", "number", {"num"})>>]
+R3 == [name |-> "res_2", pk |-> <<>>, fields |-> <<F("a", "number", {"num"}), F("c", "number", {"num"})>>]
 Inputs == { [l |-> "I0", p |-> <<R1>>], [l |-> "I1", p |-> <<R1, R2>>], [l |-> "I2", p |-> <<R1, R3>>] }
 
 Has(res, n) == \E i \in DOMAIN res.fields : res.fields[i].name = n
@@ -40,6 +45,12 @@ Get(res, n) == res.fields[CHOOSE i \in DOMAIN res.fields : res.fields[i].name = 
 Numeric(f) == f.type \in {"integer", "number"}
 MapRes(pkg, P(_), G(_)) == [i \in DOMAIN pkg |-> IF P(pkg[i]) THEN G(pkg[i]) ELSE pkg[i]]
 AddField(res, f) == [res EXCEPT !.fields = Append(@, f)]
+\* the primary key after a step that removed fields / renamed them with Ren(_)
+InSeq(x, sq) == \E i \in DOMAIN sq : sq[i] = x
+KeepPk(res, fields) == IF ~PkFollows THEN res.pk
+                       ELSE IF \A i \in DOMAIN res.pk : \E j \in DOMAIN fields : fields[j].name = res.pk[i] THEN res.pk ELSE <<>>
+RenPk(res, Ren(_)) == IF PkFollows THEN [i \in DOMAIN res.pk |-> Ren(res.pk[i])] ELSE res.pk
+WithFields(res, fields) == [res EXCEPT !.fields = fields, !.pk = KeepPk(res, fields)]
 
 \* ---- typing rules, as implemented ----
 \* add_computed_field.get_type: 'any' if a source is any; format/join -> string; number if a source is number or op is avg; else the FIRST source's type
@@ -71,20 +82,34 @@ JoinTags(agg, srcTags) == CASE agg = "count" -> {"int"}
 Steps == [k : {"add_field"}, t : {"integer", "string"}]
          \cup [k : {"acf"}, op : {"sum", "avg", "min", "multiply", "format", "join", "constant"}, src : {<<"a">>, <<"a", "c">>, <<"b">>}]
          \cup [k : {"delete_b", "select_a", "rename_a", "rename_swap", "set_type_a_number", "set_type_a_string", "filter", "sort", "dedup",
-                    "duplicate", "delete_first", "concatenate", "concat_head", "concat_tail", "source", "unpivot_b", "find_replace_b", "validate"}]
+                    "duplicate", "delete_first", "concatenate", "concat_head", "concat_tail", "source", "unpivot_b", "find_replace_b", "validate",
+                    "set_pk_a", "set_pk_ab", "concat_ren", "to_int_clear"}]
          \cup [k : {"acf_chain"}, first : {<<"a">>, <<"a", "c">>}, op2 : {"sum", "min", "format"}]       \* one call, two fields: cf = sum(first), then cf2 = op2(cf, a)
          \cup [k : {"join"}, agg : {"sum", "avg", "median", "count", "first", "array", "max"}, f : {"a", "b", "n"}]
 
 First(pkg) == pkg[1]
 \* concatenate({a: [], b: []}): target fields in the order the selected resources' schemas first show them, typed like that
 \* first occurrence; a target field no resource has is a string; a resource that lacks a field contributes nulls
-ConcatFields(pkg) ==
-  LET occ == FlattenSeq([i \in DOMAIN pkg |-> SelectSeq(pkg[i].fields, LAMBDA f : f.name \in {"a", "b"})])
+ConcatFieldsOver(pkg, T) ==
+  LET occ == FlattenSeq([i \in DOMAIN pkg |-> SelectSeq(pkg[i].fields, LAMBDA f : InSeq(f.name, T))])
       firsts == SelectSeq([i \in DOMAIN occ |-> i], LAMBDA i : \A j \in 1..(i - 1) : occ[j].name # occ[i].name)
       tagsOf(n) == UNION {IF Has(pkg[i], n) THEN Get(pkg[i], n).tags ELSE {"null"} : i \in DOMAIN pkg}
       found == [k \in DOMAIN firsts |-> F(occ[firsts[k]].name, occ[firsts[k]].type, tagsOf(occ[firsts[k]].name))]
-      missing == SelectSeq(<<"a", "b">>, LAMBDA n : \A k \in DOMAIN found : found[k].name # n)
+      missing == SelectSeq(T, LAMBDA n : \A k \in DOMAIN found : found[k].name # n)
   IN found \o [k \in DOMAIN missing |-> F(missing[k], "string", {"null"})]
+\* ... and the target's primary key: a target field is a key field iff the resource that FIRST shows it has it in its key
+ConcatPkOver(pkg, T) ==
+  LET occ == FlattenSeq([i \in DOMAIN pkg |-> [j \in DOMAIN SelectSeq(pkg[i].fields, LAMBDA f : InSeq(f.name, T)) |->
+                                                  [name |-> SelectSeq(pkg[i].fields, LAMBDA f : InSeq(f.name, T))[j].name,
+                                                   key |-> InSeq(SelectSeq(pkg[i].fields, LAMBDA f : InSeq(f.name, T))[j].name, pkg[i].pk)]]])
+      firsts == SelectSeq([i \in DOMAIN occ |-> i], LAMBDA i : \A j \in 1..(i - 1) : occ[j].name # occ[i].name)
+      keyed == SelectSeq(firsts, LAMBDA i : occ[i].key)
+  IN [k \in DOMAIN keyed |-> occ[keyed[k]].name]
+ConcatFields(pkg) == ConcatFieldsOver(pkg, <<"a", "b">>)
+ConcatPk(pkg) == ConcatPkOver(pkg, <<"a", "b">>)
+\* concatenate({A: ['a'], b: []}): the mapping RENAMES a source field; the key of the target is named by the TARGET field names
+RenA(pkg) == [i \in DOMAIN pkg |-> [pkg[i] EXCEPT !.fields = [j \in DOMAIN @ |-> IF @[j].name = "a" THEN [@[j] EXCEPT !.name = "A"] ELSE @[j]],
+                                                   !.pk = [j \in DOMAIN @ |-> IF @[j] = "a" THEN "A" ELSE @[j]]]]
 Enabled(s, pkg) ==
   CASE s.k = "add_field" -> \A i \in DOMAIN pkg : ~Has(pkg[i], "z")
     [] s.k = "acf" -> /\ \A i \in DOMAIN pkg : (\A j \in DOMAIN s.src : Has(pkg[i], s.src[j])) /\ ~Has(pkg[i], "cf")
@@ -97,12 +122,17 @@ Enabled(s, pkg) ==
     [] s.k = "rename_a" -> Has(First(pkg), "a") /\ ~Has(First(pkg), "A")
     [] s.k = "rename_swap" -> Has(First(pkg), "a") /\ Has(First(pkg), "b")
     [] s.k \in {"set_type_a_number", "set_type_a_string"} -> \A i \in DOMAIN pkg : Has(pkg[i], "a") /\ Get(pkg[i], "a").tags \subseteq {"int", "num"}
-    [] s.k \in {"filter", "sort", "dedup"} -> \A i \in DOMAIN pkg : Has(pkg[i], "a")
+    [] s.k \in {"filter", "sort", "dedup", "set_pk_a"} -> \A i \in DOMAIN pkg : Has(pkg[i], "a")
+    [] s.k = "set_pk_ab" -> Has(First(pkg), "a") /\ Has(First(pkg), "b")
+    [] s.k = "to_int_clear" -> Has(First(pkg), "b") /\ Get(First(pkg), "b").type = "string"
     [] s.k = "duplicate" -> Len(pkg) <= 2 /\ \A i \in DOMAIN pkg : pkg[i].name # (pkg[1].name \o "_copy")
     [] s.k = "delete_first" -> Len(pkg) >= 2
     [] s.k = "concatenate" -> /\ \A i \in DOMAIN pkg : \E n \in {"a", "b"} : Has(pkg[i], n) /\ "null" \notin Get(pkg[i], n).tags   \* every row has a mapped non-null value (the code asserts it)
                               /\ \A i, j \in DOMAIN pkg : \A n \in {"a", "b"} : (Has(pkg[i], n) /\ Has(pkg[j], n)) => Get(pkg[i], n).type = Get(pkg[j], n).type
                               /\ \A i \in DOMAIN pkg : pkg[i].name # "cc"
+    [] s.k = "concat_ren" -> /\ \A i \in DOMAIN pkg : Has(pkg[i], "a") /\ "null" \notin Get(pkg[i], "a").tags /\ ~Has(pkg[i], "A")
+                             /\ \A i, j \in DOMAIN pkg : \A n \in {"a", "b"} : (Has(pkg[i], n) /\ Has(pkg[j], n)) => Get(pkg[i], n).type = Get(pkg[j], n).type
+                             /\ \A i \in DOMAIN pkg : pkg[i].name # "cr"
     \* concatenate restricted to the first / the last resource: the others stay where they are, around the target
     [] s.k \in {"concat_head", "concat_tail"} ->
            LET r == IF s.k = "concat_head" THEN pkg[1] ELSE pkg[Len(pkg)] IN
@@ -124,22 +154,33 @@ Apply(s, pkg) ==
                                seen == IF ChainSees THEN AddField(r, f1) ELSE r
                                f2 == F("cf2", AcfTypeLoose(seen, s.op2, <<"cf", "a">>), IF s.op2 = "format" THEN {"str"} ELSE f1.tags \cup {"int"})
                            IN AddField(AddField(r, f1), f2))
-    [] s.k = "delete_b" -> [pkg EXCEPT ![1].fields = SelectSeq(@, LAMBDA f : f.name # "b")]
-    [] s.k = "select_a" -> MapRes(pkg, LAMBDA r : TRUE, LAMBDA r : [r EXCEPT !.fields = SelectSeq(@, LAMBDA f : f.name = "a")])
-    [] s.k = "rename_a" -> [pkg EXCEPT ![1].fields = [i \in DOMAIN @ |-> IF @[i].name = "a" THEN [@[i] EXCEPT !.name = "A"] ELSE @[i]]]
+    [] s.k = "delete_b" -> [pkg EXCEPT ![1] = WithFields(@, SelectSeq(@.fields, LAMBDA f : f.name # "b"))]
+    [] s.k = "select_a" -> MapRes(pkg, LAMBDA r : TRUE, LAMBDA r : WithFields(r, SelectSeq(r.fields, LAMBDA f : f.name = "a")))
+    [] s.k = "rename_a" -> [pkg EXCEPT ![1].fields = [i \in DOMAIN @ |-> IF @[i].name = "a" THEN [@[i] EXCEPT !.name = "A"] ELSE @[i]],
+                                       ![1].pk = RenPk(pkg[1], LAMBDA n : IF n = "a" THEN "A" ELSE n)]
     [] s.k = "rename_swap" -> [pkg EXCEPT ![1].fields = [i \in DOMAIN @ |-> IF @[i].name = "a" THEN [@[i] EXCEPT !.name = "b"]
-                                                                              ELSE IF @[i].name = "b" THEN [@[i] EXCEPT !.name = "a"] ELSE @[i]]]
+                                                                              ELSE IF @[i].name = "b" THEN [@[i] EXCEPT !.name = "a"] ELSE @[i]],
+                                          ![1].pk = RenPk(pkg[1], LAMBDA n : IF n = "a" THEN "b" ELSE IF n = "b" THEN "a" ELSE n)]
     [] s.k = "set_type_a_number" -> MapRes(pkg, LAMBDA r : TRUE, LAMBDA r : [r EXCEPT !.fields = [i \in DOMAIN @ |-> IF @[i].name = "a" THEN F("a", "number", {"num"}) ELSE @[i]]])
     [] s.k = "set_type_a_string" -> MapRes(pkg, LAMBDA r : TRUE, LAMBDA r : [r EXCEPT !.fields = [i \in DOMAIN @ |-> IF @[i].name = "a" THEN F("a", "string", {"str"}) ELSE @[i]]])
-    [] s.k \in {"filter", "sort", "dedup", "validate"} -> pkg
+    [] s.k \in {"filter", "sort", "validate"} -> pkg
+    [] s.k \in {"dedup", "set_pk_a"} -> MapRes(pkg, LAMBDA r : TRUE, LAMBDA r : [r EXCEPT !.pk = <<"a">>])      \* dedup = set_primary_key(['a']) + deduplicate()
+    [] s.k = "set_pk_ab" -> [pkg EXCEPT ![1].pk = <<"a", "b">>]
+    \* set_type('[bz]', type='integer', on_error=clear) on the first resource: text that is no integer becomes null - in EVERY matched
+    \* field of a row, not only in the first one that fails
+    [] s.k = "to_int_clear" -> [pkg EXCEPT ![1].fields = [i \in DOMAIN @ |-> IF @[i].name \in {"b", "z"}
+                                                                              THEN F(@[i].name, "integer", IF @[i].type = "string" THEN {"null"} ELSE @[i].tags)
+                                                                              ELSE @[i]]]
     [] s.k = "find_replace_b" -> pkg                                     \* nulls stay null, text stays text
-    [] s.k = "unpivot_b" -> [pkg EXCEPT ![1].fields = SelectSeq(@, LAMBDA f : f.name # "b") \o <<F("k", "string", {"str"}), F("v", "string", {"str", "null"})>>]
+    [] s.k = "unpivot_b" -> [pkg EXCEPT ![1] = [WithFields(@, SelectSeq(@.fields, LAMBDA f : f.name # "b")) EXCEPT
+                                                   !.fields = @ \o <<F("k", "string", {"str"}), F("v", "string", {"str", "null"})>>]]
     [] s.k = "duplicate" -> <<pkg[1], [pkg[1] EXCEPT !.name = pkg[1].name \o "_copy"]>> \o Tail(pkg)       \* duplicate(): the first resource
     [] s.k = "delete_first" -> Tail(pkg)
-    [] s.k = "concatenate" -> <<[name |-> "cc", fields |-> ConcatFields(pkg)]>>
-    [] s.k = "concat_head" -> <<[name |-> "ch", fields |-> ConcatFields(<<pkg[1]>>)]>> \o Tail(pkg)
-    [] s.k = "concat_tail" -> SubSeq(pkg, 1, Len(pkg) - 1) \o <<[name |-> "ch", fields |-> ConcatFields(<<pkg[Len(pkg)]>>)]>>
-    [] s.k = "source" -> Append(pkg, [name |-> "extra", fields |-> <<F("a", "integer", {"int"}), F("b", "string", {"str"})>>])
+    [] s.k = "concatenate" -> <<[name |-> "cc", pk |-> ConcatPk(pkg), fields |-> ConcatFields(pkg)]>>
+    [] s.k = "concat_ren" -> <<[name |-> "cr", pk |-> ConcatPkOver(RenA(pkg), <<"A", "b">>), fields |-> ConcatFieldsOver(RenA(pkg), <<"A", "b">>)]>>
+    [] s.k = "concat_head" -> <<[name |-> "ch", pk |-> ConcatPk(<<pkg[1]>>), fields |-> ConcatFields(<<pkg[1]>>)]>> \o Tail(pkg)
+    [] s.k = "concat_tail" -> SubSeq(pkg, 1, Len(pkg) - 1) \o <<[name |-> "ch", pk |-> ConcatPk(<<pkg[Len(pkg)]>>), fields |-> ConcatFields(<<pkg[Len(pkg)]>>)]>>
+    [] s.k = "source" -> Append(pkg, [name |-> "extra", pk |-> <<>>, fields |-> <<F("a", "integer", {"int"}), F("b", "string", {"str"})>>])
     [] s.k = "join" -> <<AddField(pkg[2], F("j", JoinType(s.agg, Get(pkg[1], s.f).type), JoinTags(s.agg, Get(pkg[1], s.f).tags)))>>
 
 VARIABLES pkg, prog, input
@@ -153,8 +194,10 @@ Spec == Init /\ [][Next]_<<pkg, prog, input>>
 UniqueResourceNames == \A i, j \in DOMAIN pkg : i # j => pkg[i].name # pkg[j].name
 UniqueFieldNames == \A r \in DOMAIN pkg : \A i, j \in DOMAIN pkg[r].fields : i # j => pkg[r].fields[i].name # pkg[r].fields[j].name
 ValuesAdmissible == \A r \in DOMAIN pkg : \A i \in DOMAIN pkg[r].fields : pkg[r].fields[i].tags \subseteq Admits(pkg[r].fields[i].type)
-WellFormed == UniqueResourceNames /\ UniqueFieldNames /\ ValuesAdmissible
+\* Table Schema: "primaryKey ... MUST be found in the schema field names"
+KeysDeclared == \A r \in DOMAIN pkg : \A k \in DOMAIN pkg[r].pk : Has(pkg[r], pkg[r].pk[k])
+WellFormed == UniqueResourceNames /\ UniqueFieldNames /\ ValuesAdmissible /\ KeysDeclared
 Export == Len(prog) > 0 => PrintT(<<"CASE", ToJson([input |-> input, prog |-> prog,
-             names |-> [i \in DOMAIN pkg |-> pkg[i].name],
+             names |-> [i \in DOMAIN pkg |-> pkg[i].name], pks |-> [i \in DOMAIN pkg |-> pkg[i].pk],
              fields |-> [i \in DOMAIN pkg |-> [j \in DOMAIN pkg[i].fields |-> <<pkg[i].fields[j].name, pkg[i].fields[j].type>>]]])>>)
 =============================================================================
